@@ -383,7 +383,7 @@ impl Atom {
         items: impl IntoIterator<Item = T>,
         matcher: &mut Matcher,
     ) -> Vec<(T, u16)> {
-        if self.needle.is_empty() {
+        if self.needle.is_empty() && !self.negative {
             return items.into_iter().map(|item| (item, 0)).collect();
         }
         let mut buf = Vec::new();
